@@ -1,0 +1,11 @@
+//go:build verif
+// +build verif
+
+// Package verifctl exposes the verification hooks to a harness outside this module.
+// It only exists with the build tag `verif`.
+package verifctl
+
+import "github.com/hprose/hprose-golang/v3/internal/verifhook"
+
+// SetGate installs the controller called at every yield point (nil removes it).
+func SetGate(f func(point string, args ...interface{})) { verifhook.SetGate(f) }
